@@ -21,12 +21,22 @@
    Kinds:  c1 / c0 / c2   generated components with one / no / two children slots
            cw             generated component that passes its children on inside the block of an inner call
            fn             hand-written func component following the documented protocol
-                          (GetChildren, then ClearChildren)
+                          (GetChildren, then ClearChildren), rendering its children into the writer it was given
+           fo / fh        the same protocol, but the children are rendered into a writer of the component's OWN
+                          (fo: a strings.Builder, fh: templ.ToGoHTML) and the result is then copied to the given writer
            onceA          @hA.Once() {...}   handle without fixed component
            onceF          @hF.Once()         handle created WithComponent(cf)   (called without block)
            flush          @templ.Flush() {...}
            join           @templ.Join(cj, cj)
            raw nop script json   templ.Raw / templ.NopComponent / a script template / templ.JSONScript
+
+   Writers.  Generated code writes through a templruntime.Buffer: a template or block closure that is handed a
+   writer which already is such a Buffer writes into it; handed any other writer it wraps it in a Buffer of its
+   own and must flush (release) that Buffer when it returns (generator: writeTemplBuffer, `if !IsBuffer { defer
+   ReleaseBuffer }`).  Calls inside generated code always pass the Buffer on, so this only matters where a
+   hand-written component renders its children into a writer of its own: wr is the stack of such writers (own =
+   the component's writer, buf = the Buffer the block closure created over it), BlockExit flushes buf into own
+   iff BlockFlushes (FALSE = modelled bug: the block's output never reaches the component).
 
    Repaired selects, per hand-written action, the original behaviour (leave the slot as it is) or
    the proposed repair (read-then-clear on entry), so that TLC checks the repair design; which of the
@@ -39,11 +49,12 @@ CONSTANTS Kinds,      \* callee kinds used in the enumerated trees
           MaxDepth,   \* nesting depth of calls
           Repaired,   \* subset of RepairableActions
           MaxOut,     \* an Impl run that has written this many tokens is cut off and reported as divergent
+          BlockFlushes, \* TRUE: a block closure flushes the Buffer it created over a foreign writer (as generated)
           GenClears,  \* TRUE: generated callees clear the slot on entry (as generated); FALSE = modelled bug
           EmitEdges
 
-VARIABLES tree, ops, slot, out, done, leaks, fin, lbl
-vars == <<tree, ops, slot, out, done, leaks, fin>>
+VARIABLES tree, ops, slot, out, done, leaks, fin, wr, lbl
+vars == <<tree, ops, slot, out, done, leaks, fin, wr>>
 \* fin: "" while rendering, "done" when the render returned, "diverged" when it was cut off (unbounded recursion)
 
 RepairableActions == {"OnceAgain", "OnceFirst", "Flush", "Join", "Raw", "Nop", "Script", "Json"}
@@ -83,7 +94,7 @@ IdBody(cs, p, j, d) ==
 IdNode(node, p, d) ==
     LET k == node.k
         wrap(kk, pp, inner) == <<Tok("o", kk, pp)>> \o inner \o <<Tok("c", kk, pp)>>
-    IN  CASE k \in {"c1", "fn"} -> LET r == IdBlk(node, p, d) IN [o |-> wrap(k, p, r.o), d |-> r.d]
+    IN  CASE k \in {"c1", "fn", "fo", "fh"} -> LET r == IdBlk(node, p, d) IN [o |-> wrap(k, p, r.o), d |-> r.d]
           [] k = "c0" -> [o |-> wrap(k, p, <<>>), d |-> d]
           [] k = "c2" -> LET r1 == IdBlk(node, p, d)
                              r2 == IdBlk(node, p, r1.d)
@@ -130,9 +141,16 @@ Init == /\ tree \in {t \in Trees : t[1].k \in FirstKinds}
         /\ done = {}
         /\ leaks = <<>>
         /\ fin = ""
+        /\ wr = <<>>         \* no hand-written component is rendering into a writer of its own
         /\ lbl = [a |-> "init"]
 
-Running == fin = "" /\ ops # <<>> /\ Len(out) < MaxOut
+RECURSIVE Pending(_, _)
+Pending(w, j) == IF j > Len(w) THEN 0 ELSE Len(w[j].pend) + Pending(w, j + 1)
+Written == Len(out) + Pending(wr, 1)
+Running == fin = "" /\ ops # <<>> /\ Written < MaxOut
+\* tokens written to the current writer: the innermost own writer / its Buffer, else the document
+Frame(t) == [t |-> t, pend |-> <<>>]
+WriteTo(w, toks) == [w EXCEPT ![Len(w)].pend = @ \o toks]
 Lbl(a) == lbl' = [a |-> a]
 
 \* generator, writeBlockTemplElementExpression: callee.Render(templ.WithChildren(ctx, block), buf); nothing afterwards
@@ -140,13 +158,13 @@ CallWithBlock ==
     /\ Running /\ Cur.op = "call" /\ Cur.n[1].b # <<>>
     /\ slot' = <<Closure(Cur.p, Cur.n[1].b[1], <<>>)>>
     /\ ops' = <<EnterOp(Cur.k, Cur.p)>> \o Rest
-    /\ UNCHANGED <<tree, out, done, leaks, fin>> /\ Lbl("CallWithBlock")
+    /\ UNCHANGED <<tree, out, done, leaks, fin>> /\ Lbl("CallWithBlock") /\ UNCHANGED wr
 
 \* generator, writeSelfClosingTemplElementExpression: callee.Render(ctx, buf)
 CallNoBlock ==
     /\ Running /\ Cur.op = "call" /\ Cur.n[1].b = <<>>
     /\ ops' = <<EnterOp(Cur.k, Cur.p)>> \o Rest
-    /\ UNCHANGED <<tree, slot, out, done, leaks, fin>> /\ Lbl("CallNoBlock")
+    /\ UNCHANGED <<tree, slot, out, done, leaks, fin>> /\ Lbl("CallNoBlock") /\ UNCHANGED wr
 
 \* generator, writeTemplate: children := templ.GetChildren(ctx); ctx = templ.ClearChildren(ctx); then the body,
 \* in which every { children... } renders that variable
@@ -164,14 +182,14 @@ GenEnter ==
     /\ NoteLeak(Cur.p, Cur.k)
     /\ slot' = IF GenClears THEN <<>> ELSE slot
     /\ ops' = GenBody(Cur.k, Cur.p, slot) \o Rest
-    /\ UNCHANGED <<tree, out, done, fin>> /\ Lbl("GenEnter")
+    /\ UNCHANGED <<tree, out, done, fin>> /\ Lbl("GenEnter") /\ UNCHANGED wr
 
 \* a call with a block written inside a library component (cw)
 CallWithClosure ==
     /\ Running /\ Cur.op = "callc"
     /\ slot' = Cur.c
     /\ ops' = <<EnterOp(Cur.k, Cur.p)>> \o Rest
-    /\ UNCHANGED <<tree, out, done, leaks, fin>> /\ Lbl("CallWithBlock")
+    /\ UNCHANGED <<tree, out, done, leaks, fin>> /\ Lbl("CallWithBlock") /\ UNCHANGED wr
 
 \* user func component following the documented protocol: GetChildren, ClearChildren, render where it wants
 FuncEnter ==
@@ -179,7 +197,7 @@ FuncEnter ==
     /\ NoteLeak(Cur.p, Cur.k)
     /\ slot' = <<>>
     /\ ops' = <<TokOp("o", "fn", Cur.p), BlkOp(slot), TokOp("c", "fn", Cur.p)>> \o Rest
-    /\ UNCHANGED <<tree, out, done, fin>> /\ Lbl("FuncEnter")
+    /\ UNCHANGED <<tree, out, done, fin>> /\ Lbl("FuncEnter") /\ UNCHANGED wr
 
 \* once.go, Once(): handle already rendered in this context -> return nil (slot untouched)
 OnceAgain ==
@@ -187,7 +205,7 @@ OnceAgain ==
     /\ (IF Cur.k = "onceA" THEN "hA" ELSE "hF") \in done
     /\ slot' = After("OnceAgain", Cur.p)
     /\ ops' = Rest
-    /\ UNCHANGED <<tree, out, done, leaks, fin>> /\ Lbl("OnceAgain")
+    /\ UNCHANGED <<tree, out, done, leaks, fin>> /\ Lbl("OnceAgain") /\ UNCHANGED wr
 
 \* once.go, first render without fixed component: GetChildren(ctx).Render(ctx, w) (slot untouched)
 OnceFirstBlock ==
@@ -196,7 +214,7 @@ OnceFirstBlock ==
     /\ NoteLeak(Cur.p, Cur.k)
     /\ slot' = After("OnceFirst", Cur.p)
     /\ ops' = <<BlkOp(slot)>> \o Rest
-    /\ UNCHANGED <<tree, out, fin>> /\ Lbl("OnceFirstBlock")
+    /\ UNCHANGED <<tree, out, fin>> /\ Lbl("OnceFirstBlock") /\ UNCHANGED wr
 
 \* once.go, first render with a fixed component: o.c.Render(ctx, w) (slot untouched)
 OnceFirstFixed ==
@@ -204,7 +222,7 @@ OnceFirstFixed ==
     /\ done' = done \cup {"hF"}
     /\ slot' = IF "OnceFirst" \in Repaired THEN <<>> ELSE slot
     /\ ops' = <<EnterOp("cf", OnceFixed(Cur.p))>> \o Rest
-    /\ UNCHANGED <<tree, out, leaks, fin>> /\ Lbl("OnceFirstFixed")
+    /\ UNCHANGED <<tree, out, leaks, fin>> /\ Lbl("OnceFirstFixed") /\ UNCHANGED wr
 
 \* flush.go: GetChildren(ctx).Render(ctx, w) (slot untouched), then flush the writer
 FlushEnter ==
@@ -212,14 +230,14 @@ FlushEnter ==
     /\ NoteLeak(Cur.p, Cur.k)
     /\ slot' = After("Flush", Cur.p)
     /\ ops' = <<BlkOp(slot)>> \o Rest
-    /\ UNCHANGED <<tree, out, done, fin>> /\ Lbl("FlushEnter")
+    /\ UNCHANGED <<tree, out, done, fin>> /\ Lbl("FlushEnter") /\ UNCHANGED wr
 
 \* join.go: every component rendered with the context untouched
 JoinEnter ==
     /\ Running /\ Cur.op = "enter" /\ Cur.k = "join"
     /\ slot' = After("Join", Cur.p)
     /\ ops' = <<EnterOp("cj", JoinA(Cur.p)), EnterOp("cj", JoinB(Cur.p))>> \o Rest
-    /\ UNCHANGED <<tree, out, done, leaks, fin>> /\ Lbl("JoinEnter")
+    /\ UNCHANGED <<tree, out, done, leaks, fin>> /\ Lbl("JoinEnter") /\ UNCHANGED wr
 
 \* Raw / NopComponent / ComponentScript / JSONScriptElement never look at the slot
 IgnoreAction(k) == CASE k = "raw" -> "Raw" [] k = "nop" -> "Nop" [] k = "script" -> "Script" [] k = "json" -> "Json"
@@ -227,19 +245,56 @@ IgnoreEnter ==
     /\ Running /\ Cur.op = "enter" /\ Cur.k \in {"raw", "nop", "script", "json"}
     /\ slot' = After(IgnoreAction(Cur.k), Cur.p)
     /\ ops' = (IF Cur.k = "nop" THEN <<>> ELSE <<TokOp("x", Cur.k, Cur.p)>>) \o Rest
-    /\ UNCHANGED <<tree, out, done, leaks, fin>> /\ Lbl("IgnoreEnter")
+    /\ UNCHANGED <<tree, out, done, leaks, fin>> /\ Lbl("IgnoreEnter") /\ UNCHANGED wr
 
-\* a block closure runs: nothing on entry; its marker, its calls, then { children... } of the enclosing template
+\* user func component that renders its children into a writer of its own (strings.Builder / templ.ToGoHTML):
+\* GetChildren, ClearChildren, children.Render(ctx, &own), then <tag> + own + </tag> to the given writer
+FuncOwnEnter ==
+    /\ Running /\ Cur.op = "enter" /\ Cur.k \in {"fo", "fh"}
+    /\ NoteLeak(Cur.p, Cur.k)
+    /\ slot' = <<>>
+    /\ wr' = Append(wr, Frame("own"))
+    /\ ops' = <<BlkOp(slot), Op("ownend", Cur.k, Cur.p, <<>>, <<>>)>> \o Rest
+    /\ UNCHANGED <<tree, out, done, fin>> /\ Lbl("FuncOwnEnter")
+
+\* the component copies what its own writer received to the writer it was given
+FuncOwnCopy ==
+    /\ Running /\ Cur.op = "ownend"
+    /\ LET got == wr[Len(wr)].pend
+           below == SubSeq(wr, 1, Len(wr) - 1)
+           toks == <<Tok("o", Cur.k, Cur.p)>> \o got \o <<Tok("c", Cur.k, Cur.p)>>
+       IN  IF below = <<>> THEN out' = out \o toks /\ wr' = below
+           ELSE wr' = WriteTo(below, toks) /\ UNCHANGED out
+    /\ ops' = Rest
+    /\ UNCHANGED <<tree, slot, done, leaks, fin>> /\ Lbl("FuncOwnCopy")
+
+\* a block closure runs: nothing on entry for the slot; templruntime.GetBuffer(w): a foreign writer (the own writer of a
+\* hand-written component) is wrapped in a new Buffer; then its marker, its calls, then { children... } of the
+\* enclosing template; a Buffer it created is released (flushed) when it returns
 RenderBlock ==
     /\ Running /\ Cur.op = "blk"
-    /\ ops' = (IF Cur.c = <<>> THEN <<>>      \* templ.NopComponent
-               ELSE <<TokOp("m", "", Cur.c[1].p)>> \o CallOps(Cur.c[1].cs, Cur.c[1].p)
-                    \o (IF Cur.c[1].kids = <<>> THEN <<>> ELSE <<BlkOp(Cur.c[1].kids)>>)) \o Rest
+    /\ LET foreign == Cur.c # <<>> /\ wr # <<>> /\ wr[Len(wr)].t = "own" IN
+       /\ wr' = IF foreign THEN Append(wr, Frame("buf")) ELSE wr
+       /\ ops' = (IF Cur.c = <<>> THEN <<>>      \* templ.NopComponent
+                  ELSE <<TokOp("m", "", Cur.c[1].p)>> \o CallOps(Cur.c[1].cs, Cur.c[1].p)
+                       \o (IF Cur.c[1].kids = <<>> THEN <<>> ELSE <<BlkOp(Cur.c[1].kids)>>)
+                       \o (IF foreign THEN <<Op("blkend", "", <<>>, <<>>, <<>>)>> ELSE <<>>)) \o Rest
     /\ UNCHANGED <<tree, slot, out, done, leaks, fin>> /\ Lbl("RenderBlock")
+
+\* generator, block closure prologue: `if !IsBuffer { defer ReleaseBuffer(buffer) }` -- the Buffer the closure created
+\* is flushed into the writer it wraps
+BlockExit ==
+    /\ Running /\ Cur.op = "blkend"
+    /\ LET got == wr[Len(wr)].pend
+           below == SubSeq(wr, 1, Len(wr) - 1)
+       IN  wr' = IF BlockFlushes THEN WriteTo(below, got) ELSE below
+    /\ ops' = Rest
+    /\ UNCHANGED <<tree, slot, out, done, leaks, fin>> /\ Lbl("BlockExit")
 
 WriteToken ==
     /\ Running /\ Cur.op = "tok"
-    /\ out' = Append(out, Tok(Cur.n[1], Cur.k, Cur.p))
+    /\ IF wr = <<>> THEN out' = Append(out, Tok(Cur.n[1], Cur.k, Cur.p)) /\ UNCHANGED wr
+       ELSE wr' = WriteTo(wr, <<Tok(Cur.n[1], Cur.k, Cur.p)>>) /\ UNCHANGED out
     /\ ops' = Rest
     /\ UNCHANGED <<tree, slot, done, leaks, fin>> /\ Lbl("WriteToken")
 
@@ -248,19 +303,20 @@ Result(f) == [a |-> "Finish", tree |-> tree, ideal |-> IdealOut(tree), impl |-> 
 Finish ==
     /\ fin = "" /\ ops = <<>>
     /\ fin' = "done"
-    /\ UNCHANGED <<tree, ops, slot, out, done, leaks>>
+    /\ UNCHANGED <<tree, ops, slot, out, done, leaks, wr>>
     /\ lbl' = Result("done")
 
 \* the render keeps re-entering a block it is already inside of (e.g. a Flush without block inside a Flush block
 \* renders the enclosing block again): the real render recurses until the stack or the writer gives up
 Diverge ==
-    /\ fin = "" /\ ops # <<>> /\ Len(out) >= MaxOut
+    /\ fin = "" /\ ops # <<>> /\ Written >= MaxOut
     /\ fin' = "diverged"
-    /\ UNCHANGED <<tree, ops, slot, out, done, leaks>>
+    /\ UNCHANGED <<tree, ops, slot, out, done, leaks, wr>>
     /\ lbl' = Result("diverged")
 
 Next == \/ CallWithBlock \/ CallNoBlock \/ CallWithClosure \/ GenEnter \/ FuncEnter
         \/ OnceAgain \/ OnceFirstBlock \/ OnceFirstFixed \/ FlushEnter \/ JoinEnter \/ IgnoreEnter
+        \/ FuncOwnEnter \/ FuncOwnCopy \/ BlockExit
         \/ RenderBlock \/ WriteToken \/ Finish \/ Diverge
 
 Spec == Init /\ [][Next]_vars
@@ -270,6 +326,7 @@ Spec == Init /\ [][Next]_vars
 TypeOK == /\ Len(slot) <= 1
           /\ done \subseteq {"hA", "hF"}
           /\ Len(IdealOut(tree)) < MaxOut
+          /\ fin = "done" => wr = <<>>       \* every own writer was copied out, every created Buffer released
 
 \* C13: the shared-slot implementation renders exactly what lexical children denote
 ImplEqualsIdeal == fin # "" => (fin = "done" /\ out = IdealOut(tree))
